@@ -28,7 +28,11 @@ import (
 const GrammarHash = "f0b0f8dab262650d78f12e49612fd1df070319ad7ee252fb76b70db7bea7a115"
 
 func grammarRules() (string, error) {
-	b, err := os.ReadFile(filepath.Join("/repo/v4/cdcn", "Syntax.cdsn"))
+	repo := os.Getenv("VERIF_REPO") // set by ./vr from the replace directive of harness/go.mod
+	if repo == "" {
+		repo = "/repo"
+	}
+	b, err := os.ReadFile(filepath.Join(repo, "v4/cdcn", "Syntax.cdsn"))
 	if err != nil {
 		return "", err
 	}
